@@ -922,6 +922,54 @@ func (e *Env) RParenKeep() {
 			"Lparen is cleared when «"+cl.cond+"», which does not exclude a remaining spec with Start decorations (comments above it): printed without parentheses the comment is detached from the spec — the preamble of import \"C\" is lost and the file no longer builds")
 	}
 	e.Run.Floor("R-PAREN", "stores that can clear the parentheses of an import declaration", n, 1)
+	// the two flags of a declaration are always written together and alike: go/printer looks at
+	// Lparen to decide whether the declaration is parenthesised, GenDecl.End() at Rparen
+	for _, fd := range load.AllFuncDecls(pkg) {
+		if fd.Body == nil || !(isRestorePath(fd) || restoreHelpers[fd]) || strings.HasSuffix(e.Prog.File(fd.Pos()), "-generated.go") {
+			continue
+		}
+		ast.Inspect(fd.Body, func(nd ast.Node) bool {
+			var list []ast.Stmt
+			switch b := nd.(type) {
+			case *ast.BlockStmt:
+				list = b.List
+			case *ast.CaseClause:
+				list = b.Body
+			}
+			vals := map[string]map[string]string{} // base → flag → value
+			var first ast.Node
+			for _, st := range list {
+				as, ok := st.(*ast.AssignStmt)
+				if !ok || len(as.Lhs) != len(as.Rhs) {
+					continue
+				}
+				for i, l := range as.Lhs {
+					se, ok := ast.Unparen(l).(*ast.SelectorExpr)
+					if !ok || (se.Sel.Name != "Lparen" && se.Sel.Name != "Rparen") {
+						continue
+					}
+					if _, tn := namedOf(info.TypeOf(se.X)); tn != "GenDecl" {
+						continue
+					}
+					base := types.ExprString(se.X)
+					if vals[base] == nil {
+						vals[base] = map[string]string{}
+					}
+					vals[base][se.Sel.Name] = types.ExprString(as.Rhs[i])
+					if first == nil {
+						first = as
+					}
+				}
+			}
+			for base, m := range vals {
+				l, hasL := m["Lparen"]
+				r, hasR := m["Rparen"]
+				e.Run.Check("R-PAREN", fmt.Sprintf("%s: Lparen and Rparen of %s are stored together, with the same value", load.FuncName(fd), base), e.Prog.Pos(first.Pos()), hasL && hasR && l == r,
+					fmt.Sprintf("Lparen = %q, Rparen = %q in one statement list (a missing store shows as \"\"): with one flag set and the other not, the restored declaration has an opening parenthesis without a closing one (or the reverse) — End() of the declaration and what go/printer prints disagree", l, r))
+			}
+			return true
+		})
+	}
 }
 
 // RHangGuard: in link(), the search for the hanging comments of a case / comm clause is made with
